@@ -163,6 +163,11 @@ def static_stage(ctx, tab):
     pairs = []
     for (i, j) in rep["RAW"]:
         pairs.append((acc[i], acc[j], None if (i, j) in bad else KEY_NODEMAP))
+    badplain = {i for (i,) in rep["BADPLAIN"]}
+    for (i,) in rep["RAWPLAIN"]:
+        p = dict(tab["plainUses"][i])
+        p.update({"class": "plain use of atomic " + p["field"], "held": [], "plain": True})
+        pairs.append((p, p, None if i in badplain else KEY_PLAIN))
     present = set()
     if any(k == KEY_NODEMAP for _, _, k in pairs):
         present.add(KEY_NODEMAP)
@@ -176,12 +181,16 @@ def static_stage(ctx, tab):
     for (i,) in rep["BADPLAIN"]:
         p = tab["plainUses"][i]
         lines.append("atomics_never_mixed fails: plain %s of %s in %s @ %s" % ("write" if p["write"] else "read", p["field"], p["fn"], p["pos"]))
+    mn = tab.get("mutexNames") or []
     for (o, i) in rep["BADEDGE"]:
-        es = [e for e in tab["lockEdges"]]
-        lines.append("lock_order_acyclic fails: edge #%d -> #%d lies on a cycle (edges: %s)" % (o, i, "; ".join(e["outer"] + " -> " + e["inner"] + " @ " + e["pos"] for e in es)))
+        on, inn = (mn[o] if o < len(mn) else "#%d" % o), (mn[i] if i < len(mn) else "#%d" % i)
+        at = [e["pos"] + " in " + e["fn"] for e in tab["lockEdges"] if e["outer"] == on and e["inner"] == inn]
+        lines.append("lock_order_acyclic fails: nested acquisition %s -> %s (%s) lies on a cycle of the lock order" % (on, inn, "; ".join(at)))
     for (i,) in rep["BADSHAPE"]:
         s = tab["slotShapes"][i]
-        lines.append("slots_single_snapshot / switch_is_atomic fails: %s enters %d read sections of %s%s" % (s["slot"], s["sections"], s["mu"], " (in a loop)" if s["inLoop"] else ""))
+        upd = s["slot"].split(".")[-1].startswith(("Load", "Clear"))
+        lines.append("slots_single_snapshot / switch_is_atomic fails: %s enters %d %s sections of %s on one path%s" %
+                     (s["slot"], s["sections"], "write" if upd else "read", s["mu"], " (in a loop)" if s["inLoop"] else ""))
     for (i,) in rep["BADUNKNOWN"]:
         u = tab["unknowns"][i]
         lines.append("extractor_understood_everything fails: %s @ %s: %s" % (u["fn"], u["pos"], u["what"]))
@@ -246,21 +255,28 @@ def stack_touches(stack, row, callsites):
 def explain(report, pairs, callsites):
     """Which statically flagged pair predicts this detector report? -> (key|None, pair, how) or None.
     how = "direct": the two racing accesses are the two table rows;
-    how = "downstream": an object that was published / obtained through the flagged (racy) container is used without a
-    happens-before edge: one side's stack runs through the pair's writer function, the other's through the pair's reader
-    function or a direct caller of it (e.g. a breaker stored by addNodeBreakerOfResource and picked up from the map that
-    getNodeBreakersOfResource ranges over after RUnlock)."""
+    how = "downstream": an object that was obtained through the flagged (racy) container is used without a happens-before
+    edge to its construction / publication: one side's stack runs through the pair's *reader* function or a direct caller
+    of it (e.g. a breaker picked up from the map that getNodeBreakersOfResource ranges over after RUnlock, racing with
+    its construction in addNodeBreakerOfResource).  This is deliberately loose: a second, unrelated race inside the direct
+    callers of a flagged reader would be attributed to the flagged pair."""
     if len(report["accesses"]) < 2:
         return None
     a1, a2 = report["accesses"][0]["frames"], report["accesses"][1]["frames"]
     for (ra, rb, key) in pairs:
+        if ra.get("plain"):
+            if frame_matches(a1[:1], ra, []) or frame_matches(a2[:1], ra, []):
+                return key, (ra, rb), "direct"
+            continue
         if (frame_matches(a1, ra, callsites) and frame_matches(a2, rb, callsites)) or \
            (frame_matches(a1, rb, callsites) and frame_matches(a2, ra, callsites)):
             return key, (ra, rb), "direct"
     s1, s2 = report["accesses"][0]["stack"], report["accesses"][1]["stack"]
     for (ra, rb, key) in pairs:
-        if (stack_touches(s1, ra, callsites) and stack_touches(s2, rb, callsites)) or \
-           (stack_touches(s1, rb, callsites) and stack_touches(s2, ra, callsites)):
+        if ra.get("plain"):
+            continue
+        readers = [r for r in (ra, rb) if not r["write"]] or [ra, rb]
+        if any(stack_touches(s1, r, callsites) or stack_touches(s2, r, callsites) for r in readers):
             return key, (ra, rb), "downstream"
     return None
 
@@ -298,8 +314,45 @@ def race_stage(ctx, tab, pairs, present, static_bad_rows):
             tag = "seed=%d outlier=%s seconds=%s" % (seed, outlier, secs)
             tot["runs"] += 1
             if res is None:
-                ctx.violation("race-crash-%d.txt" % seed, "race15 (%s) exited %s without a RESULT line (escaped panic / fatal error such as "
-                              "`concurrent map read and map write`)\nreplay: race %s\n%s" % (tag, rc, tag, err[-6000:]))
+                # no RESULT line: the runtime killed the process (e.g. `fatal error: concurrent map read and map write`)
+                hit = None
+                for rep in parse_races(err, core.REPO):
+                    ex = explain(rep, pairs, cs)
+                    if ex is not None and ex[0] is None:
+                        hit = "race detector report before the crash:\n" + rep["text"][:3000]
+                        break
+                fatal = re.search(r"fatal error: [^\n]*", err)
+                if hit is None and fatal:
+                    blk = err[fatal.start():].split("\n\n")
+                    blk = "\n\n".join(blk[:2])
+                    stack = []
+                    for m in re.finditer(r"\n(\S+?)\([^\n]*\)\n\t(\S+?):(\d+)", blk):
+                        fn = m.group(1).split("sentinel-golang/")[-1]
+                        fn = re.sub(r"\(\*?([A-Za-z0-9_]+)\)", r"\1", fn)
+                        if m.group(2).startswith(core.REPO + "/"):
+                            stack.append((fn, m.group(2)[len(core.REPO) + 1:] + ":" + m.group(3)))
+                    known_hit = None
+                    for (ra, rb, key) in pairs:
+                        if ra.get("plain"):
+                            continue
+                        if stack_touches(stack, ra, cs) or stack_touches(stack, rb, cs):
+                            if key is None:
+                                hit = "runtime crash in a flagged function:\n" + blk[:3000]
+                                break
+                            known_hit = key
+                    if hit is None and known_hit is not None:
+                        # the runtime's own map-race check fired inside a function of a listed known finding
+                        tot["crashes_by_key"] = tot.get("crashes_by_key", {})
+                        tot["crashes_by_key"][known_hit] = tot["crashes_by_key"].get(known_hit, 0) + 1
+                        tot["runs"] += 0
+                        continue
+                if hit is not None:
+                    static_bad_rows.append("confirmed dynamically (race %s): %s" % (tag, hit))
+                    ctx.cov["race"] = tot
+                    return True
+                ctx.violation("race-crash-%d.txt" % seed, "race15 (%s) exited %s without a RESULT line (escaped panic / fatal error)\nreplay: race %s\n%s\n...\n%s"
+                              % (tag, rc, tag, err[fatal.start():fatal.start() + 4000] if fatal else "", err[-3000:]))
+                ctx.cov["race"] = tot
                 return confirmed
             tot["seconds"] += res["seconds"]
             tot["oracle_checked"] += res["oracleChecked"]
@@ -435,6 +488,7 @@ def run(ctx):
         ctx.log("race: %d runs, %.0fs, %d requests oracle-checked, %d rule switches, %d churn ops, %d detector reports %s" %
                 (r.get("runs", 0), r.get("seconds", 0), r.get("oracle_checked", 0), r.get("switches", 0), r.get("churn_ops", 0), r.get("reports", 0), r.get("reports_by_key", {})))
     if static_problem:
+        confirmed = confirmed or bool(ctx.violations)      # an oracle failure / crash / unpredicted report of this run is a failing input
         ctx.violation("table-rows.txt", "theorems of Sentinel.Props.C15 fail on the table regenerated from this tree (evaluated with the same Lean definitions):\n"
                       + "\n".join(static_rows) + "\n", no_input=not confirmed)
     elif not ok and not ctx.violations:
@@ -451,7 +505,8 @@ def run(ctx):
         extra = ""
         r = ctx.cov.get("race", {})
         if key == KEY_NODEMAP:
-            extra = " [race detector: %d matching reports this run]" % r.get("reports_by_key", {}).get(key, 0)
+            extra = " [race detector: %d matching reports, %d runtime `concurrent map` crashes in these functions this run]" % (
+                r.get("reports_by_key", {}).get(key, 0), r.get("crashes_by_key", {}).get(key, 0))
         if key == KEY_SNAP:
             extra = " [stress: %d recovered panics in SlotChain.Entry with outlier churn this run]" % r.get("internal_panics_entry", 0)
         ctx.known(f"key={key} {e['what']}{extra}")
@@ -495,7 +550,7 @@ def replay(path):
         print("known finding still present in the table:", k)
         for a, b, key in pairs:
             if key == k:
-                print("   ", fmt_row(a), "\n    ", fmt_row(b))
+                print("   ", fmt_row(a), "\n    ", fmt_row(b))  # noqa
         if k in want:
             fail = 1
     runs = re.findall(r"race seed=(\d+) outlier=(True|False|true|false) seconds=([0-9.]+)", txt)
